@@ -9,8 +9,8 @@ SPEC = ["C04_BoundsIter"]
 
 def consts(tier):
     if tier == "quick":
-        return dict(L2=4, L3o=2, L3i=2, LG=2, TripleCoords="{}")
-    return dict(L2=4, L3o=3, L3i=2, LG=3, TripleCoords="{0, 1, 2}")
+        return dict(L2=4, L3o=2, L3i=2, LG=2, TripleCoords="{}", InfThin=5)
+    return dict(L2=4, L3o=3, L3i=2, LG=3, TripleCoords="{0, 1, 2}", InfThin=1)
 
 
 def write_cfgs(run, k):
@@ -19,7 +19,7 @@ def write_cfgs(run, k):
     with open(os.path.join(run.out, "MC.cfg"), "w") as f:
         f.write("SPECIFICATION Spec\nINVARIANT IterOK\nCHECK_DEADLOCK FALSE\n" + base)
     with open(os.path.join(run.out, "Gen.cfg"), "w") as f:
-        f.write("SPECIFICATION GenSpec\nCHECK_DEADLOCK FALSE\n" + base + "  TripleCoords = %s\n" % k["TripleCoords"])
+        f.write("SPECIFICATION GenSpec\nCHECK_DEADLOCK FALSE\n" + base + "  TripleCoords = %s\n  InfThin = %d\n" % (k["TripleCoords"], k["InfThin"]))
 
 
 def has_empty_run(g):
